@@ -1,4 +1,7 @@
-(* C03 -- the ABF object (C04 model of colvarbias_abf::update in closed loop with its variables and the
+(* ADAPTER: every use that coq/C03 makes of the C04 slice's definitions is in this file (definitions) and in
+   UsesC04Proofs.v (lemmas that unfold them); the other C03 files refer to the names defined here only.
+
+   C03 -- the ABF object (C04 model of colvarbias_abf::update in closed loop with its variables and the
    engine) as a [machine]: write_state_data writes the `samples` and `gradient` grids, read_state_data reads them
    back; everything else (bin, force_bin, last forces, the variables' ft / f_old / fj) is as after construction.
    The engine's memory of the force that acted at the previous step is not part of the state file either; it is
@@ -14,10 +17,11 @@ Section AbfObject.
 
   Definition abf_saved : Type := ((idx -> Z) * (idx -> @vec T))%type.
 
+  (* a fresh bias (abf_init) whose two grids are replaced by what was read *)
   Definition abf_load (c : @abf_cfg T) (v : abf_saved) : @abf_state T :=
-    let nd := c_nd c in
-    mkSt (fst v) (snd v) (repeat 0 nd) (repeat 0 nd)
-         (vzero O nd) (vzero O nd) (vzero O nd) (vzero O nd) (vzero O nd) (vzero O nd) 0 false.
+    let s0 := abf_init O c in
+    mkSt (fst v) (snd v) (s_bin s0) (s_fbin s0) (s_fabf s0) (s_fprev s0) (s_ft s0) (s_fold s0) (s_eng s0) (s_fj s0)
+         (s_rel s0) (s_started s0) (s_japp s0).
 
   (* the protocol of ResumeModel has no run boundary inside a process *)
   Definition no_boundary (i : @abf_in T) : @abf_in T := mkIn (i_x i) (i_e i) (i_o i) (i_j i) false (i_apply i).
@@ -39,4 +43,13 @@ Section AbfObject.
   Definition eabf_force (o : @abf_out T) : T := hd (n0 O) (o_f o).
   Definition eabf_machine :=
     ObjectsModel.extlag_machine O abf_machine eabf_force eabf_bin.
+
+  (* names used by the other C03 files *)
+  Definition abf_in_t : Type := @abf_in T.
+  Definition abf_input (xs e o j : list T) (apply : bool) : abf_in_t := mkIn xs e o j false apply.
+  Definition abf_same_step (c : @abf_cfg T) : bool := c_same_step c.
+  Definition abf_reported_total_force (c : @abf_cfg T) (s : @abf_state T) (i : @abf_in T) : list T :=
+    o_tf (snd (abf_step O c s (no_boundary i))).
+  Definition abf_saved_after_step (c : @abf_cfg T) (s : @abf_state T) (i : @abf_in T) : abf_saved :=
+    let so := abf_step O c s (no_boundary i) in (s_cnt (fst so), s_sum (fst so)).
 End AbfObject.
